@@ -170,7 +170,7 @@ Qed.
 
 (* ---- non-vacuity ---- *)
 Definition ex_ci (cd : list Z) : call_in :=
-  mkci cd 0 1000 (id_eth 100) (id_eth 100) 0 0 2000 3000 0 0 [] 77 [].
+  mkci cd 0 1000 (id_eth 100) (id_eth 100) 0 0 2000 3000 0 0 [] 77 [] [].
 (* counter loop writing storage, then returning 32 bytes *)
 Definition ex_prog : list Z :=
   [96; 10; 91; 96; 1; 144; 3; 128; 96; 2; 87; 96; 42; 95; 85; 96; 7; 95; 82; 96; 32; 95; 243].
